@@ -39,6 +39,14 @@ _dt.declare("from_disc", ("fd_outputs", LISTS), ("fd_form", INT))
 _dt.declare("other", ("other_id", INT))
 MdoFun = _dt.create()
 
+FFDCLS = "gemseo.core.mdo_functions.function_from_discipline.FunctionFromDiscipline"
+
+
+def single_name_list(name):
+    """The canonical term of the one-element list [name]."""
+    return NAME_LIST.dt.mk(z3.IntVal(1), z3.K(INT, name))
+
+
 adapter_linear = z3.Function("c17_adapter_is_linear", MdoFun, z3.BoolSort())
 adapter_dim = z3.Function("c17_adapter_input_dimension", MdoFun, INT)
 # input names of an opaque discipline (a grammar is seen through `name in grammar` / iteration only: its set of names)
@@ -81,6 +89,8 @@ def top_inputs_member(elems, n, names_of=None):
 class C17bModels:
     # ------------------------------------------------------------------ MDO functions as values
     def construct(self, ex, cv, args, kwargs, lineno):
+        if _on(ex) and cv.qualname == FFDCLS and getattr(ex.contract, "c17b_ffd_value", False):
+            return self._construct_ffd_value(ex, args, kwargs, lineno)
         if not _on(ex) or cv.qualname != CCLS:
             return NotImplemented
         if len(args) != 2 or kwargs:
@@ -99,6 +109,21 @@ class C17bModels:
             for label, f in ex._spec(ct.construction_requires, c0):
                 ex.check(f, "pre", f"ConsistencyConstraint.__init__:{label}", lineno, aux=True)
         return SV(MdoFun.consistency(NAME_LIST.embed(ex.st, oc), z3.IntVal(form.id)), TMdoFun)
+
+    def _construct_ffd_value(self, ex, args, kwargs, lineno):
+        """``FunctionFromDiscipline(names, formulation, discipline=..., top_level_disc=...)`` as the value from_disc(names, formulation) (which
+        discipline computes the outputs is left to the constructor: not part of the value).  A one-element list of names is the canonical
+        term single_name_list(name) (a list is seen through its elements)."""
+        if len(args) != 2 or any(k not in ("discipline", "top_level_disc") for k in kwargs) or not isinstance(args[1], Ref):
+            raise Unsupported("FunctionFromDiscipline(...) with other arguments than (names, formulation, discipline=, top_level_disc=)")
+        st = ex.st
+        o = st.heap[args[0].id] if isinstance(args[0], Ref) else None
+        if not isinstance(o, ListObj) or o.t != TStr:
+            raise Unsupported("FunctionFromDiscipline for output names that are no list of strings")
+        n = z3.simplify(o.n)
+        names = single_name_list(z3.simplify(o.elems[0])) if z3.is_int_value(n) and n.as_long() == 1 else NAME_LIST.embed(st, args[0])
+        ex.assumed.add("MDO functions as values: FunctionFromDiscipline(names, formulation, ...) is the value from_disc(names, formulation)")
+        return SV(MdoFun.from_disc(names, z3.IntVal(args[1].id)), TMdoFun)
 
     def value_attr(self, ex, obj, attr, lineno):
         if not (isinstance(obj, SV) and isinstance(obj.ty, _TMdoFun)):
@@ -125,6 +150,15 @@ class C17bModels:
             if nq is not None:
                 return ClassV(nq)
         raise Unsupported(f"attribute {attr} of an MDO function value")
+
+    def class_constant(self, ex, ci, name):
+        """MDOFunction.FunctionType = merge_enums(.., _FunctionType, ConstraintType): its members are those of the two merged enumerations, with the
+        same values; seen here through the nested class _FunctionType (OBJ / OBS / NONE - the only members read under these contracts)."""
+        if _on(ex) and ci.qualname == MDOF and name == "FunctionType":
+            nq = S.find_nested_class(MDOF, "_FunctionType")
+            if nq is not None:
+                return ClassV(nq)
+        return NotImplemented
 
     # ------------------------------------------------------------------ set(names).intersection(design_space)
     def call_method(self, ex, recv, name, args, kwargs, lineno):
@@ -300,8 +334,6 @@ class C17bInitModels:
         ref = ex.st.alloc(o)
         for f, t in C.class_schema(key).items():
             o.fields[f] = t.fresh(ex.st, f"mda.{f}")
-        if "c17_declares_linear" in o.fields:
-            ex.st.assume(z3.Not(o.fields["c17_declares_linear"].term))  # a new MDA declares no linear input-output relationship
         o.c17_created_from = list(args)
         ex.assumed.add("model of MDAFactory.create(name, disciplines, settings_model=...): a new MDA with an arbitrary coupling structure and input grammar "
                        "(the couplings of an MDA are those of its disciplines: C08), no effect on the formulation")
